@@ -229,7 +229,7 @@ def run_check(prop, tier, seed, n_workers=None):
   rc = 0
   mini_budget = budget.get('minimise', 40)
   for n_rep, (key, (plan, v, rep)) in enumerate(new_by_key.items()):
-    if n_rep >= 3:
+    if n_rep >= int(os.environ.get("VERIF_MAX_REPORTS", "4")):
       break
     small, spent = plan, 0
     if mini_budget and not harness:
